@@ -440,21 +440,33 @@ func c35Concurrent(t *testing.T, seed int64, sh bool, maxN int, nprod, nops, nci
 			}
 		}()
 		wg.Wait()
-		for i := 0; ; i++ {
-			time.Sleep(30 * time.Millisecond)
-			synctest.Wait()
-			if !h.atGate.Load() && len(h.mq.outgoingWork) == 0 {
+		quiesce := func() {
+			for i := 0; ; i++ {
 				time.Sleep(30 * time.Millisecond)
 				synctest.Wait()
 				if !h.atGate.Load() && len(h.mq.outgoingWork) == 0 {
-					break
+					time.Sleep(30 * time.Millisecond)
+					synctest.Wait()
+					if !h.atGate.Load() && len(h.mq.outgoingWork) == 0 {
+						break
+					}
+				}
+				if i > 5000 {
+					panic("c35: queue does not become idle")
 				}
 			}
-			if i > 5000 {
-				panic("c35: queue does not become idle")
-			}
+			h.emitSt(M{"ev": "Idle"})
 		}
-		h.emitSt(M{"ev": "Idle"})
+		quiesce()
+		// quiet tail: the session drops everything at once (one AddCancels for all CIDs), then nothing more
+		// happens.  Under a size limit the cancels of the wants that were sent do not fit into one message; only
+		// the loop's own re-signal after each send can deliver the rest before the final Idle.
+		all := make([]int, 0, ncids)
+		for c := 1; c <= ncids; c++ {
+			all = append(all, c)
+		}
+		h.call(1, c35Op{Op: "cancels", Ks: all})
+		quiesce()
 		if time.Since(start) > 14*time.Second {
 			panic("c35: run crossed the periodic rebroadcast timer")
 		}
@@ -470,7 +482,7 @@ func c35Record(t *testing.T) {
 	par := rng.Intn(2)
 	for r := 0; r < runs; r++ {
 		sh := (r+par)%2 == 0 // both settings of HAVE support, half of the runs each
-		maxN := []int{1, 2, 3, 0}[rng.Intn(4)]
+		maxN := []int{1, 2, 3, 0, 1, 1, 2, 0}[(r+par*3)%8] // every limit in every 8 runs, the small ones more often
 		c35Concurrent(t, vSeed()*1000+int64(r), sh, maxN, 2+rng.Intn(2), vEnvInt("C35_OPS", 6), vEnvInt("C35_CIDS", 4))
 	}
 }
